@@ -847,6 +847,11 @@ int reb_integrator_whfast_init(struct reb_simulation* const r){
     if (ri_whfast->kernel == REB_WHFAST_KERNEL_MODIFIEDKICK || ri_whfast->kernel == REB_WHFAST_KERNEL_LAZY){ 
         r->gravity = REB_GRAVITY_JACOBI;
     }else{
+        if (ri_whfast->coordinates!=REB_WHFAST_COORDINATES_JACOBI && r->gravity==REB_GRAVITY_JACOBI){
+            // Left behind by a kernel or SABA corrector used earlier. Only meaningful in Jacobi coordinates.
+            reb_simulation_warning(r,"The Jacobi gravity routine can only be used with Jacobi coordinates. REBOUND is now setting the gravity routine back to REB_GRAVITY_BASIC.");
+            r->gravity = REB_GRAVITY_BASIC;
+        }
         if (ri_whfast->coordinates==REB_WHFAST_COORDINATES_JACOBI){
             r->gravity_ignore_terms = 1;
         }else if (ri_whfast->coordinates==REB_WHFAST_COORDINATES_BARYCENTRIC){
